@@ -381,3 +381,491 @@ extend_step!(ext_t_ab_adopt_k0, RAB, [true, true], entity = (A, B), n = 0, cap =
 extend_step!(ext_t_dbwa_n1_k2, RDBWA, [true, true, true, true], entity = (D, B, W, A), n = 1, cap = 2, k = 2, s = 2, f = 1);
 extend_step!(ext_t_azd_adopt_k3, RAZD, [false, true, true], entity = (Z, D), n = 0, cap = 0, k = 3, s = 2, f = 2);
 extend_step!(ext_t_ab_n0_cap2_k1, RAB, [true, false], entity = (A), n = 0, cap = 2, k = 1, s = 0, f = 0);
+
+// ------------------------------------------------------------------------------------------
+// Entry::add / Entry::remove at archetype level:
+//   pop_row_unchecked(row) -> packed bytes -> push_from_buffer_{and,skipping}_component into a
+//   second archetype -> modify_location_unchecked.
+// `src` has SRC bits, `dst` has DST bits; they differ in exactly the component X.
+// ------------------------------------------------------------------------------------------
+
+macro_rules! shape_step {
+    ($name:ident, $R:ty, src = [$($sb:expr),*], dst = [$($db:expr),*], $mode:ident $X:ty,
+     n1 = $N1:expr, n2 = $N2:expr, cap2 = $CAP2:expr, s = $S:expr, f = $F:expr) => {
+        #[kani::proof]
+        #[kani::unwind(18)]
+        pub fn $name() {
+            const N1: usize = $N1;
+            const N2: usize = $N2;
+            const N2P: usize = $N2 + 1;
+            const S: usize = $S;
+            const F: usize = $F;
+            let sbits = [$($sb),*];
+            let dbits = [$($db),*];
+            let scols = popcount(&sbits);
+            let dcols = popcount(&dbits);
+            let mut sdm = [false; MAXC];
+            <$R as Cols>::dmask(&sbits, &mut sdm, 0);
+            // which registry position differs, and the present-column index of X on the side that has it
+            let mut xpos = usize::MAX;
+            let mut i = 0;
+            while i < sbits.len() {
+                if sbits[i] != dbits[i] {
+                    vassert!(xpos == usize::MAX, "shapes differ in exactly one component (harness bug)");
+                    xpos = i;
+                }
+                i += 1;
+            }
+            let xcol_src = popcount(&sbits[..xpos]);
+            let xcol_dst = popcount(&dbits[..xpos]);
+
+            let src_ident = ident::<$R>(bits_to_bytes(&sbits));
+            let dst_ident = ident::<$R>(bits_to_bytes(&dbits));
+            let other = ident::<$R>(bits_to_bytes(&sbits));
+            // SAFETY: the buffers outlive the allocator below.
+            let (src_ref, dst_ref, other_ref) = unsafe { (src_ident.as_ref(), dst_ident.as_ref(), other.as_ref()) };
+            let (mut a, ids1, ids2, _free) = any_linked2::<$R, S, F, N1, N2>(src_ref, dst_ref, other_ref);
+            let mut src = any_archetype::<$R>(src_ident, &sbits, N1, N1, &ids1);
+            let mut dst = any_archetype::<$R>(dst_ident, &dbits, N2, $CAP2, &ids2);
+            let sbefore = snap::<$R, N1>(&src, &sbits);
+            let dbefore = snap::<$R, N2P>(&dst, &dbits);
+            let alloc_before = snap_alloc::<$R, S>(&a);
+
+            let target: usize = kani::any();
+            kani::assume(target < N1);
+            let target_id = ids1[target];
+
+            // SAFETY: LinkInv holds, `target` is a valid row.
+            let (moved_id, bytes) = unsafe { src.pop_row_unchecked(target, &mut a) };
+            vassert!(moved_id == target_id, "pop returns the row's own identifier");
+            let mut sizes = [0usize; MAXC];
+            <$R as Cols>::sizes(&sbits, &mut sizes, 0);
+            vassert!(bytes.len() == sizes[0] + sizes[1] + sizes[2] + sizes[3], "packed row is exactly the sum of the component sizes");
+
+            let mut new_fp = 0u64;
+            let index = shape_step!(@push $mode $X, dst, moved_id, bytes, new_fp);
+            // SAFETY: `moved_id` is live.
+            unsafe { a.modify_location_unchecked(moved_id, Location::new(dst_ref, index)) };
+            drop(bytes);
+
+            // source: swap-remove
+            vassert!(arch_shape_ok(&src, &sbits, N1 - 1), "ArchInv shape of the source after pop");
+            let safter = snap::<$R, N1>(&src, &sbits);
+            let mut r = 0;
+            while r + 1 < N1 {
+                let from = if r == target { N1 - 1 } else { r };
+                vassert!(rows_eq(&safter.rows[r], &sbefore.rows[from], scols), "source survivors keep their own values");
+                vassert!(safter.ids[r] == sbefore.ids[from], "source survivors keep their own identifier");
+                r += 1;
+            }
+            // destination: old rows untouched, new row = carried values (+ new component)
+            vassert!(index == N2, "entity lands in the next row of the target archetype");
+            vassert!(arch_shape_ok(&dst, &dbits, N2 + 1), "ArchInv shape of the target after push");
+            let dafter = snap::<$R, N2P>(&dst, &dbits);
+            let mut r = 0;
+            while r < N2 {
+                vassert!(rows_eq(&dafter.rows[r], &dbefore.rows[r], dcols), "target's existing rows untouched");
+                vassert!(dafter.ids[r] == dbefore.ids[r], "target's existing identifiers untouched");
+                r += 1;
+            }
+            vassert!(dafter.ids[N2] == target_id, "moved entity keeps its identifier");
+            shape_step!(@carried $mode, sbefore, dafter, target, N2, scols, dcols, xcol_src, xcol_dst, new_fp);
+
+            // index <-> storage
+            vassert!(link_ok(&src, &a) && link_ok(&dst, &a), "LinkInv after the shape change");
+            vassert!(alloc_inv(&a), "AllocInv after the shape change");
+            vassert!(slots_pointing_at(&a, src_ref.verif_pointer()) == N1 - 1, "source rows reachable, nothing more");
+            vassert!(slots_pointing_at(&a, dst_ref.verif_pointer()) == N2 + 1, "target rows reachable, nothing more");
+            let mut i = 0;
+            while i < S {
+                let s = snap_slot(&a.slots[i]);
+                vassert!(s.generation == alloc_before[i].generation && s.active == alloc_before[i].active, "liveness and generations untouched by a shape change");
+                if i != target_id.index && i != ids1[N1 - 1].index {
+                    vassert!(
+                        s.loc_ptr == alloc_before[i].loc_ptr && s.loc_index == alloc_before[i].loc_index,
+                        "frame: other entities' locations untouched"
+                    );
+                }
+                i += 1;
+            }
+            // ledger
+            shape_step!(@ledger $mode, sbefore, sdm, scols, target, xcol_src, N1);
+            kani::cover!(target + 1 < N1 || N1 == 1, "a row was moved into the hole");
+            drop(src);
+            drop(dst);
+            vassert!(ledger_all_once(), "every value dropped exactly once after dropping both archetypes");
+            kani::cover!(true, "reached end");
+        }
+    };
+    (@push add $X:ty, $dst:ident, $id:ident, $bytes:ident, $fp:ident) => {{
+        let c = <$X as Cell>::any_cell();
+        $fp = c.fp();
+        // SAFETY: `bytes` holds the source row's components packed in registry order.
+        unsafe { $dst.push_from_buffer_and_component($id, $bytes.as_ptr(), c) }
+    }};
+    (@push remove $X:ty, $dst:ident, $id:ident, $bytes:ident, $fp:ident) => {{
+        let _ = &$fp;
+        // SAFETY: `bytes` holds the source row's components packed in registry order, including X.
+        unsafe { $dst.push_from_buffer_skipping_component::<$X>($id, $bytes.as_ptr()) }
+    }};
+    (@carried add, $sb:ident, $da:ident, $t:ident, $n2:ident, $scols:ident, $dcols:ident, $xs:ident, $xd:ident, $fp:ident) => {
+        // dst has one more column at xd
+        let mut k = 0;
+        while k < MAXC {
+            if k < $dcols {
+                if k < $xd {
+                    vassert!($da.rows[$n2][k] == $sb.rows[$t][k], "carried component value preserved (before X)");
+                } else if k == $xd {
+                    vassert!($da.rows[$n2][k] == $fp, "added component stored in its own column");
+                } else {
+                    vassert!($da.rows[$n2][k] == $sb.rows[$t][k - 1], "carried component value preserved (after X)");
+                }
+            }
+            k += 1;
+        }
+    };
+    (@carried remove, $sb:ident, $da:ident, $t:ident, $n2:ident, $scols:ident, $dcols:ident, $xs:ident, $xd:ident, $fp:ident) => {
+        let mut k = 0;
+        while k < MAXC {
+            if k < $dcols {
+                if k < $xs {
+                    vassert!($da.rows[$n2][k] == $sb.rows[$t][k], "carried component value preserved (before X)");
+                } else {
+                    vassert!($da.rows[$n2][k] == $sb.rows[$t][k + 1], "carried component value preserved (after X)");
+                }
+            }
+            k += 1;
+        }
+    };
+    (@ledger add, $sb:ident, $dm:ident, $scols:ident, $t:ident, $xs:ident, $n1:ident) => {
+        let mut i = 0;
+        while i < LEDGER_SIZE {
+            vassert!(ledger(i as u8) == 0, "adding a component drops nothing");
+            i += 1;
+        }
+    };
+    (@ledger remove, $sb:ident, $dm:ident, $scols:ident, $t:ident, $xs:ident, $n1:ident) => {
+        let mut k = 0;
+        while k < MAXC {
+            if k < $scols && $dm[k] {
+                let mut r = 0;
+                while r < $n1 {
+                    let want = if r == $t && k == $xs { 1 } else { 0 };
+                    vassert!(
+                        ledger(d_id_of_fp($sb.rows[r][k])) == want,
+                        "detached component dropped exactly once at removal"
+                    );
+                    r += 1;
+                }
+            }
+            k += 1;
+        }
+    };
+}
+
+// add
+shape_step!(shape_q_add_b_to_a, RAB, src = [true, false], dst = [true, true], add B, n1 = 2, n2 = 1, cap2 = 1, s = 4, f = 1);
+shape_step!(shape_t_add_w_dbwa, RDBWA, src = [true, true, false, true], dst = [true, true, true, true], add W, n1 = 2, n2 = 0, cap2 = 0, s = 2, f = 0);
+shape_step!(shape_t_add_d_azd, RAZD, src = [true, true, false], dst = [true, true, true], add D, n1 = 1, n2 = 2, cap2 = 3, s = 3, f = 0);
+shape_step!(shape_t_add_a_first, RAZD, src = [false, false, true], dst = [true, false, true], add A, n1 = 2, n2 = 1, cap2 = 1, s = 3, f = 0);
+// remove
+shape_step!(shape_q_rm_d_azd, RAZD, src = [true, true, true], dst = [true, true, false], remove D, n1 = 2, n2 = 1, cap2 = 1, s = 3, f = 0);
+shape_step!(shape_t_rm_b_dbwa, RDBWA, src = [true, true, true, true], dst = [true, false, true, true], remove B, n1 = 1, n2 = 0, cap2 = 0, s = 1, f = 0);
+shape_step!(shape_t_rm_d_dbwa, RDBWA, src = [true, true, false, true], dst = [false, true, false, true], remove D, n1 = 3, n2 = 1, cap2 = 2, s = 4, f = 0);
+shape_step!(shape_t_rm_last_a, RAB, src = [true, false], dst = [false, false], remove A, n1 = 1, n2 = 1, cap2 = 1, s = 2, f = 0);
+shape_step!(shape_t_rm_z_azd, RAZD, src = [false, true, true], dst = [false, false, true], remove Z, n1 = 2, n2 = 0, cap2 = 0, s = 2, f = 0);
+
+// ------------------------------------------------------------------------------------------
+// Entry::add on a present component = set_component_unchecked (overwrite drops the old value)
+// ------------------------------------------------------------------------------------------
+
+macro_rules! set_step {
+    ($name:ident, $R:ty, [$($b:expr),*], set $X:ty, n = $N:expr) => {
+        #[kani::proof]
+        #[kani::unwind(18)]
+        pub fn $name() {
+            const N: usize = $N;
+            let bits = [$($b),*];
+            let ncols = popcount(&bits);
+            let mut dm = [false; MAXC];
+            <$R as Cols>::dmask(&bits, &mut dm, 0);
+            let identifier = ident::<$R>(bits_to_bytes(&bits));
+            let mut ids = [entity::Identifier::new(0, 0); N];
+            let mut r = 0;
+            while r < N {
+                ids[r] = entity::Identifier::new(kani::any(), kani::any());
+                r += 1;
+            }
+            let mut arch = any_archetype::<$R>(identifier, &bits, N, N, &ids);
+            let before = snap::<$R, N>(&arch, &bits);
+            let (_, _, cols_before, _) = arch.verif_raw();
+            let col0_before = if ncols > 0 { cols_before[0] } else { (core::ptr::null_mut(), 0) };
+
+            let target: usize = kani::any();
+            kani::assume(target < N);
+            let c = <$X as Cell>::any_cell();
+            let new_fp = c.fp();
+            // which present column holds X: found independently by probing fingerprints is not
+            // possible, so it is derived from the registry position of X.
+            let xcol = <$R as XCol<$X>>::xcol(&bits);
+
+            // SAFETY: X's bit is set in `bits`; `target` is a valid row.
+            unsafe { arch.set_component_unchecked::<$X, _>(target, c) };
+
+            vassert!(arch_shape_ok(&arch, &bits, N), "ArchInv shape after set");
+            let after = snap::<$R, N>(&arch, &bits);
+            let mut r = 0;
+            while r < N {
+                vassert!(after.ids[r] == before.ids[r], "identifiers untouched by set");
+                let mut k = 0;
+                while k < MAXC {
+                    if k < ncols {
+                        if r == target && k == xcol {
+                            vassert!(after.rows[r][k] == new_fp, "the new value is stored in X's own column of the target row");
+                        } else {
+                            vassert!(after.rows[r][k] == before.rows[r][k], "every other cell untouched by set");
+                        }
+                    }
+                    k += 1;
+                }
+                r += 1;
+            }
+            if ncols > 0 {
+                let (_, _, cols_after, _) = arch.verif_raw();
+                vassert!(cols_after[0] == col0_before, "set never reallocates");
+            }
+            // ledger: exactly the overwritten value (if X is the ledger component) dropped, once
+            let mut k = 0;
+            while k < MAXC {
+                if k < ncols && dm[k] {
+                    let mut r = 0;
+                    while r < N {
+                        let want = if r == target && k == xcol { 1 } else { 0 };
+                        vassert!(ledger(d_id_of_fp(before.rows[r][k])) == want, "overwritten value dropped exactly once, nothing else");
+                        r += 1;
+                    }
+                }
+                k += 1;
+            }
+            drop(arch);
+            vassert!(ledger_all_once(), "every value dropped exactly once after dropping the archetype");
+            kani::cover!(true, "reached end");
+        }
+    };
+}
+
+/// Present-column index of component `X` in registry `Self` under `bits` (reference computation:
+/// number of set bits before X's registry position).
+pub trait XCol<X> {
+    fn xcol(bits: &[bool]) -> usize;
+}
+macro_rules! xcol_impl {
+    ($R:ty; $($X:ty => $pos:expr),*) => {
+        $(impl XCol<$X> for $R {
+            fn xcol(bits: &[bool]) -> usize {
+                popcount(&bits[..$pos])
+            }
+        })*
+    };
+}
+xcol_impl!(RAB; A => 0, B => 1);
+xcol_impl!(RAZD; A => 0, Z => 1, D => 2);
+xcol_impl!(RDBWA; D => 0, B => 1, W => 2, A => 3);
+
+set_step!(set_q_d_azd, RAZD, [true, true, true], set D, n = 2);
+set_step!(set_q_b_ab, RAB, [false, true], set B, n = 2);
+set_step!(set_t_a_dbwa, RDBWA, [true, false, true, true], set A, n = 3);
+set_step!(set_t_w_dbwa, RDBWA, [true, true, true, true], set W, n = 2);
+set_step!(set_t_d_dbwa, RDBWA, [true, true, false, false], set D, n = 3);
+set_step!(set_t_z_azd, RAZD, [true, true, false], set Z, n = 1);
+
+// ------------------------------------------------------------------------------------------
+// World::clear (one archetype) = Archetype::clear(allocator); clone_from's clear_detached
+// ------------------------------------------------------------------------------------------
+
+macro_rules! clear_step {
+    ($name:ident, $R:ty, [$($b:expr),*], entity = ($($C:ty),*), n = $N:expr, s = $S:expr, f = $F:expr, detached = $DET:expr) => {
+        #[kani::proof]
+        #[kani::unwind(18)]
+        pub fn $name() {
+            const N: usize = $N;
+            const N1: usize = $N + 1;
+            const S: usize = $S;
+            const F: usize = $F;
+            let bits = [$($b),*];
+            let ncols = popcount(&bits);
+            let mut dm = [false; MAXC];
+            <$R as Cols>::dmask(&bits, &mut dm, 0);
+            let identifier = ident::<$R>(bits_to_bytes(&bits));
+            let other = ident::<$R>(bits_to_bytes(&bits));
+            // SAFETY: both buffers outlive the allocator below.
+            let (arch_ref, other_ref) = unsafe { (identifier.as_ref(), other.as_ref()) };
+            let (mut a, ids, free) = any_linked::<$R, S, F, N>(arch_ref, other_ref);
+            let mut arch = any_archetype::<$R>(identifier, &bits, N, N, &ids);
+            let before = snap::<$R, N1>(&arch, &bits);
+            let alloc_before = snap_alloc::<$R, S>(&a);
+
+            if $DET {
+                arch.clear_detached();
+                // allocator untouched
+                let mut i = 0;
+                while i < S {
+                    let s = snap_slot(&a.slots[i]);
+                    vassert!(
+                        s.generation == alloc_before[i].generation
+                            && s.active == alloc_before[i].active
+                            && s.loc_ptr == alloc_before[i].loc_ptr
+                            && s.loc_index == alloc_before[i].loc_index,
+                        "clear_detached leaves the allocator alone"
+                    );
+                    i += 1;
+                }
+            } else {
+                // SAFETY: LinkInv holds.
+                unsafe { arch.clear(&mut a) };
+                vassert!(a.free.len() == F + N, "every cleared entity's slot is released, none twice");
+                let mut j = 0;
+                while j < F {
+                    vassert!(a.free[j] == free[j], "older free entries keep their order");
+                    j += 1;
+                }
+                let mut r = 0;
+                while r < N {
+                    vassert!(a.free[F + r] == ids[r].index, "slots released in row order");
+                    vassert!(a.get(ids[r]).is_none() && !a.is_active(ids[r]), "cleared identifiers are dead");
+                    r += 1;
+                }
+                vassert!(alloc_inv(&a), "AllocInv after clear");
+                vassert!(slots_pointing_at(&a, arch_ref.verif_pointer()) == 0, "nothing points into the cleared archetype");
+                let mut i = 0;
+                while i < S {
+                    let s = snap_slot(&a.slots[i]);
+                    vassert!(s.generation == alloc_before[i].generation, "generations untouched by clear");
+                    if alloc_before[i].loc_ptr != arch_ref.verif_pointer() {
+                        vassert!(
+                            s.active == alloc_before[i].active
+                                && s.loc_ptr == alloc_before[i].loc_ptr
+                                && s.loc_index == alloc_before[i].loc_index,
+                            "frame: entities of other archetypes untouched by clear"
+                        );
+                    }
+                    i += 1;
+                }
+            }
+            vassert!(arch_shape_ok(&arch, &bits, 0), "cleared archetype is empty and keeps its columns");
+            let mut gone = [true; N1];
+            gone[N] = false;
+            vassert!(ledger_rows(&before, &dm, ncols, &gone), "every cleared value dropped exactly once");
+
+            // the archetype is still usable: push one more entity
+            let mut efp = [0u64; MAXC];
+            let mut k = 0;
+            let entity = crate::entity!($({
+                let c = <$C as Cell>::any_cell();
+                efp[k] = c.fp();
+                k += 1;
+                c
+            }),*);
+            // SAFETY: the entity's components are exactly the archetype's.
+            let id = unsafe { arch.push(entity, &mut a) };
+            let after = snap::<$R, N1>(&arch, &bits);
+            vassert!(after.n == 1 && rows_eq(&after.rows[0], &efp, ncols) && after.ids[0] == id, "push after clear stores row 0");
+            if !$DET {
+                vassert!(link_ok(&arch, &a) && alloc_inv(&a), "LinkInv after clear+push");
+            }
+            drop(arch);
+            vassert!(ledger_all_once(), "every value dropped exactly once after dropping the archetype");
+            kani::cover!(true, "reached end");
+        }
+    };
+}
+
+clear_step!(clear_q_azd_n2, RAZD, [true, true, true], entity = (A, Z, D), n = 2, s = 3, f = 1, detached = false);
+clear_step!(clear_q_azd_n2_detached, RAZD, [true, false, true], entity = (A, D), n = 2, s = 2, f = 0, detached = true);
+clear_step!(clear_t_dbwa_n3, RDBWA, [true, true, true, true], entity = (D, B, W, A), n = 3, s = 4, f = 1, detached = false);
+clear_step!(clear_t_ab_n0, RAB, [true, true], entity = (A, B), n = 0, s = 1, f = 1, detached = false);
+clear_step!(clear_t_empty_n2, RAB, [false, false], entity = (), n = 2, s = 2, f = 0, detached = false);
+
+// ------------------------------------------------------------------------------------------
+// Growth / shrink patterns (C05): reserve, shrink_to_fit, then keep using the columns.
+// ------------------------------------------------------------------------------------------
+
+macro_rules! grow_shrink_step {
+    ($name:ident, $R:ty, [$($b:expr),*], entity = ($($C:ty),*), n = $N:expr, cap = $CAP:expr, additional = $ADD:expr, s = $S:expr, f = $F:expr) => {
+        #[kani::proof]
+        #[kani::unwind(18)]
+        pub fn $name() {
+            const N: usize = $N;
+            const N1: usize = $N + 1;
+            const S: usize = $S;
+            const F: usize = $F;
+            let bits = [$($b),*];
+            let ncols = popcount(&bits);
+            let identifier = ident::<$R>(bits_to_bytes(&bits));
+            let other = ident::<$R>(bits_to_bytes(&bits));
+            // SAFETY: both buffers outlive the allocator below.
+            let (arch_ref, other_ref) = unsafe { (identifier.as_ref(), other.as_ref()) };
+            let (mut a, ids, _free) = any_linked::<$R, S, F, N>(arch_ref, other_ref);
+            let mut arch = any_archetype::<$R>(identifier, &bits, N, $CAP, &ids);
+            let before = snap::<$R, N1>(&arch, &bits);
+
+            let shrink_first: bool = kani::any();
+            if shrink_first {
+                arch.shrink_to_fit();
+                // SAFETY: entity type matches the archetype.
+                unsafe { arch.reserve::<crate::Entity!($($C),*)>($ADD) };
+            } else {
+                // SAFETY: entity type matches the archetype.
+                unsafe { arch.reserve::<crate::Entity!($($C),*)>($ADD) };
+                arch.shrink_to_fit();
+            }
+            vassert!(arch_shape_ok(&arch, &bits, N), "reserve/shrink keep the row count");
+            let mid = snap::<$R, N1>(&arch, &bits);
+            let mut r = 0;
+            while r < N {
+                vassert!(rows_eq(&mid.rows[r], &before.rows[r], ncols) && mid.ids[r] == before.ids[r], "reserve/shrink keep every value");
+                r += 1;
+            }
+            {
+                let (_, (_, idcap), cols, _) = arch.verif_raw();
+                vassert!(idcap >= N, "identifier column capacity covers its length");
+                let mut k = 0;
+                while k < MAXC {
+                    if k < ncols {
+                        vassert!(cols[k].1 >= N, "column capacity covers its length");
+                    }
+                    k += 1;
+                }
+            }
+
+            let mut efp = [0u64; MAXC];
+            let mut k = 0;
+            let entity = crate::entity!($({
+                let c = <$C as Cell>::any_cell();
+                efp[k] = c.fp();
+                k += 1;
+                c
+            }),*);
+            // SAFETY: the entity's components are exactly the archetype's.
+            let id = unsafe { arch.push(entity, &mut a) };
+            let after = snap::<$R, N1>(&arch, &bits);
+            let mut r = 0;
+            while r < N {
+                vassert!(rows_eq(&after.rows[r], &before.rows[r], ncols) && after.ids[r] == before.ids[r], "push after reserve/shrink keeps every value");
+                r += 1;
+            }
+            vassert!(rows_eq(&after.rows[N], &efp, ncols) && after.ids[N] == id, "push after reserve/shrink stores the new row");
+            vassert!(link_ok(&arch, &a) && alloc_inv(&a), "LinkInv after reserve/shrink/push");
+            arch.shrink_to_fit();
+            drop(arch);
+            vassert!(ledger_all_once(), "every value dropped exactly once after dropping the archetype");
+            kani::cover!(shrink_first, "shrink then reserve");
+            kani::cover!(!shrink_first, "reserve then shrink");
+        }
+    };
+}
+
+grow_shrink_step!(grow_q_azd_n2, RAZD, [true, true, true], entity = (A, Z, D), n = 2, cap = 4, additional = 1, s = 2, f = 0);
+grow_shrink_step!(grow_t_dbwa_n1, RDBWA, [true, true, true, true], entity = (D, B, W, A), n = 1, cap = 1, additional = 2, s = 2, f = 1);
+grow_shrink_step!(grow_t_ab_n0, RAB, [true, true], entity = (A, B), n = 0, cap = 0, additional = 0, s = 0, f = 0);
+grow_shrink_step!(grow_t_ab_n0_cap3, RAB, [true, false], entity = (A), n = 0, cap = 3, additional = 1, s = 1, f = 1);
